@@ -20,7 +20,7 @@ def main():
     from crosshair.options import AnalysisOptionSet, AnalysisKind
     import importlib
     t0 = time.time()
-    res = {"module": modname, "function": fname, "messages": [], "error": None}
+    res = {"module": modname, "function": fname, "messages": [], "error": None, "repo_src": vk.REPO_SRC}
     try:
         mod = importlib.import_module(modname)
         fn = getattr(mod, fname)
